@@ -64,9 +64,9 @@ def tyOf (kvs : Kvs) : Ty :=
      | none => .bad)
   | some _ => .bad
 
-/-- a schema that is nothing but subschemas (annotations excluded too: `metadata: None`) -/
+/-- a schema that is nothing but subschemas (annotations aside: `metadata: _`) -/
 def subOnly (kvs : Kvs) : Bool :=
-  !metaP kvs && !has kvs "type" && !has kvs "format" && !has kvs "enum" && !has kvs "const" && subP kvs &&
+  !has kvs "type" && !has kvs "format" && !has kvs "enum" && !has kvs "const" && subP kvs &&
   !numP kvs && !strP kvs && !arrP kvs && !objP kvs && !has kvs "$ref"
 
 /-- `constant_string_value` -/
